@@ -407,3 +407,73 @@ SPECS.append(disp_spec(
     'C03', 'Manager._dispatcher[arming]', c03_post, cover_=['return', 'armed'], loop_hooks={'entry': c03_entry},
     clause='(sequential mechanism 2) before handlers of a generate_events event run, _currently_handling is the event and its time '
            'left is 0 whenever remaining > 0, the queue is non-empty or the manager is not running'))
+
+
+# ----------------------------------------------------------------------------- C03: guarded-by (lock scope) obligations
+def _with_lock_blocks(fnode, lockname):
+    out = []
+    for n in ast.walk(fnode):
+        if isinstance(n, ast.With) and any(lockname in ast.unparse(it.context_expr) for it in n.items):
+            out.append(n)
+    return out
+
+
+def _mentions(nodes, text):
+    return any(text in ast.unparse(n) for n in nodes)
+
+
+def guarded_by(res, opts):
+    """lock-scope obligations: the reads and writes the wake-up hand-shake must perform atomically are inside the critical sections.
+    (Sequential contracts cannot see a statement moved out of a `with lock:` block; these structural obligations can.)"""
+    mod = contract.ModInfo('circuits/core/manager.py')
+    disp, _ = mod.find('Manager._dispatcher')
+    blocks = _with_lock_blocks(disp, 'self._lock')
+    add_ob(res, 'dispatcher.one_critical_section', len(blocks) == 1, 'ast', detail='%d `with self._lock:` blocks in _dispatcher' % len(blocks))
+    if blocks:
+        b = blocks[0]
+        body = b.body
+        add_ob(res, 'dispatcher.current_event_published_under_the_lock', _mentions(body, 'self._currently_handling = event'), 'ast',
+               detail='_currently_handling = event is assigned inside the critical section')
+        tests = [n.test for n in ast.walk(b) if isinstance(n, ast.If)]
+        add_ob(res, 'dispatcher.queue_emptiness_read_under_the_lock', any('len(self._queue)' in ast.unparse(t) for t in tests), 'ast',
+               detail='the test that decides whether the loop may sleep reads len(self._queue) inside the critical section (atomic with publishing the event)')
+        add_ob(res, 'dispatcher.running_flag_read_under_the_lock', any('self._running' in ast.unparse(t) for t in tests), 'ast',
+               detail='the same test reads self._running inside the critical section')
+        # no read of the queue length between function entry and the critical section
+        before = [s for s in disp.body if s.lineno < b.lineno and not (isinstance(s, ast.If) and b in list(ast.walk(s)))]
+        stale = [ast.unparse(s)[:60] for s in before if 'len(self._queue)' in ast.unparse(s)]
+        add_ob(res, 'dispatcher.no_stale_queue_length', not stale, 'ast', detail='queue length read before the critical section: %r' % stale)
+    fire, _ = mod.find('Manager._fire')
+    blocks = _with_lock_blocks(fire, 'self._lock')
+    add_ob(res, 'fire.one_critical_section', len(blocks) == 1, 'ast', detail='%d `with self._lock:` blocks in _fire' % len(blocks))
+    if blocks:
+        body = blocks[0].body
+        src = [ast.unparse(s) for s in body]
+        i_read = next((i for i, t in enumerate(src) if 'handling = self._currently_handling' in t), -1)
+        i_app = next((i for i, t in enumerate(src) if 'self._queue.append(' in t), -1)
+        i_red = next((i for i, t in enumerate(src) if 'reduce_time_left(0)' in t), -1)
+        add_ob(res, 'fire.read_append_wakeup_in_one_critical_section', min(i_read, i_app, i_red) >= 0, 'ast',
+               detail='foreign thread: reading _currently_handling, appending the event and reduce_time_left(0) are in the same `with self._lock:`')
+        add_ob(res, 'fire.append_before_wakeup', 0 <= i_app < i_red, 'ast', detail='the event is queued before the loop is woken')
+    hmod = contract.ModInfo('circuits/core/helpers.py')
+    fb, _ = hmod.find('FallBackGenerator._on_generate_events')
+    blocks = _with_lock_blocks(fb, 'event.lock')
+    add_ob(res, 'fallback.one_critical_section', len(blocks) == 1, 'ast', detail='%d `with event.lock:` blocks' % len(blocks))
+    if blocks:
+        body = blocks[0].body
+        add_ob(res, 'fallback.time_left_checked_and_flag_cleared_under_the_lock',
+               _mentions(body, 'event.time_left == 0') and _mentions(body, 'self._continue.clear()'), 'ast',
+               detail='time_left == 0 test and _continue.clear() are inside `with event.lock:` (a foreign fire either sees the handler or finds the flag cleared first)')
+        waits_inside = [n for n in ast.walk(blocks[0]) if isinstance(n, ast.Call) and ast.unparse(n.func).endswith('.wait')]
+        add_ob(res, 'fallback.never_waits_holding_the_lock', not waits_inside, 'ast', detail='no wait() inside the critical section')
+    emod = contract.ModInfo('circuits/core/events.py')
+    rt, _ = emod.find('generate_events.reduce_time_left')
+    blocks = _with_lock_blocks(rt, 'self._lock')
+    whole = len(blocks) == 1 and len([s for s in rt.body if not (isinstance(s, ast.Expr) and isinstance(s.value, ast.Constant))]) == 1
+    add_ob(res, 'reduce_time_left.entirely_under_the_lock', whole, 'ast', detail='the whole body of reduce_time_left is one `with self._lock:` block')
+
+
+SPECS.append(CustomCheck('C03', 'guarded_by(structural)', guarded_by, file='circuits/core/manager.py',
+                         clause='lock-scope obligations: publishing the handled event and testing queue emptiness are one critical section; '
+                                'the foreign fire reads, appends and wakes inside one critical section, append first; the fallback generator '
+                                'tests time_left and clears its flag under the lock and never waits holding it'))
